@@ -333,7 +333,10 @@ def judgePartFault (cfg : List String) (lines : List String) : Verdict := Id.run
         let pre : Nat := if innerFirst then (if pos == "before" then 0 else 1) else (if pos == "before" then 1 else 2)
         let sA := if pre == 0 then s else if pre == 1 then r1.1 else (Part.stepThread r1.1 r1.2).1
         if tie then
-          let sA := if !exact && wreads == 1 && (Part.lookup sA.cache i).isSome then { sA with cache := Part.erase sA.cache i } else sA
+          -- with an evicting policy the entry may have been dropped at any time: the read went to the inner store
+          -- (one inner stream), or — while the inner store has already applied a delete — found nothing anywhere
+          let missObserved := wreads == 1 || (wres == "notfound" && (Part.lookup sA.inner i).isNone)
+          let sA := if !exact && missObserved && (Part.lookup sA.cache i).isSome then { sA with cache := Part.erase sA.cache i } else sA
           let predReads := if (Part.lookup sA.cache i).isNone && (Part.lookup sA.inner i).isSome then 1 else 0
           let sB := Part.runToEnd sA (.get i false .lookup none)
           let pred := match partRes sA sB with
@@ -374,7 +377,7 @@ def judgePartFault (cfg : List String) (lines : List String) : Verdict := Id.run
         | _ => pure ()
         -- tie
         if tie then
-          if !exact && reads == 1 && (Part.lookup s.cache i).isSome then
+          if !exact && (reads == 1 || (res == ["notfound"] && (Part.lookup s.inner i).isNone)) && (Part.lookup s.cache i).isSome then
             s := { s with cache := Part.erase s.cache i }     -- the eviction policy dropped the entry
             stats := addStats stats [("part_evictions_inferred", 1)]
           let miss := (Part.lookup s.cache i).isNone
